@@ -146,3 +146,75 @@ def rand_mib(r: random.Random, *, beacon=True, dpl=(1, 2, 8, 16)) -> dict:
 
 def circle_area(lat: int, lon: int, radius: int) -> dict:
     return {"shape": 0, "lat": lat, "lon": lon, "a": radius, "b": radius, "angle": 0}
+
+
+# --------------------------------------------------------------------------- reference-peer packets
+PKT_TYPES = ["BEACON", "SHB", "TSB", "GBC", "GAC", "GUC", "LSREQ", "LSREP"]
+_HT = {"BEACON": (1, 0), "SHB": (5, 0), "TSB": (5, 1), "GBC": (4, None), "GAC": (3, None), "GUC": (2, 0), "LSREQ": (6, 0), "LSREP": (6, 1)}
+
+
+def biased(r: random.Random, lo: int, hi: int) -> int:
+    c = r.random()
+    if c < 0.3:
+        return r.choice([lo, hi, lo + 1, hi - 1, 0 if lo <= 0 <= hi else lo, (lo + hi) // 2])
+    if c < 0.4 and lo < 0:
+        return r.choice([-1, 1])
+    return r.randint(lo, hi)
+
+
+def rand_addr(r: random.Random, mac: str, st_max: int = 11) -> str:
+    return rc.enc_addr(r.randint(0, 1) if r.random() < 0.3 else 0, r.randint(0, st_max), bytes.fromhex(mac)).hex()
+
+
+def rand_lpv(r: random.Random, addr_hex: str, *, pos=None, tst_off=None, full_range=True) -> dict:
+    if pos is None:
+        lat, lon = biased(r, -900_000_000, 900_000_000), biased(r, -1_800_000_000, 1_800_000_000)
+    else:
+        lat, lon = pos
+    return {"addr": addr_hex, "tst_off_ms": tst_off if tst_off is not None else -r.randint(0, 1500),
+            "lat": lat, "lon": lon, "pai": r.randint(0, 1),
+            "speed": biased(r, -16384, 16383) if full_range else r.randint(0, 5000),
+            "heading": biased(r, 0, 3601) if r.random() < 0.9 else r.randint(0, 65535)}
+
+
+def rand_pkt(r: random.Random, typ: str, src_mac: str, *, so=None, dest_addr=None, dest_pv=None, area=None,
+             rhl=None, mhl=None, sn=None, lt=None, payload=None, dport=None, nh=None) -> dict:
+    ht, hst = _HT[typ]
+    if hst is None:
+        hst = r.randint(0, 2)
+    if mhl is None:
+        mhl = 1 if typ in ("BEACON", "SHB") else biased(r, 1, 255)
+    if rhl is None:
+        rhl = 1 if typ in ("BEACON", "SHB") else (mhl if r.random() < 0.5 else r.randint(0, mhl))
+    if lt is None:
+        lt = r.randint(0, 255)
+    if nh is None:
+        nh = 0 if typ in ("BEACON", "LSREQ", "LSREP") else r.choice([1, 2])
+    if payload is None:
+        if typ in ("BEACON", "LSREQ", "LSREP"):
+            payload = ""
+        else:
+            n = r.choice([0, 1, 8, 40, r.randint(0, 300)])
+            body = bytes(r.getrandbits(8) for _ in range(n))
+            payload = (rc.enc_btp(dport if dport is not None else r.randrange(65536), r.randrange(65536)) + body).hex()
+    pkt = {"basic": {"nh": 1, "lt": lt, "rhl": rhl},
+           "common": {"nh": nh, "ht": ht, "hst": hst, "tc": r.randrange(256) if typ not in ("BEACON",) else 0,
+                      "flags": r.choice([0, 128]), "mhl": mhl},
+           "so": so if so is not None else rand_lpv(r, rand_addr(r, src_mac)),
+           "payload": payload}
+    if typ not in ("BEACON", "SHB"):
+        pkt["sn"] = sn if sn is not None else biased(r, 0, 65535)
+    if typ in ("GBC", "GAC"):
+        pkt["area"] = area if area is not None else {
+            "lat": biased(r, -900_000_000, 900_000_000), "lon": biased(r, -1_800_000_000, 1_800_000_000),
+            "a": biased(r, 1, 65535), "b": biased(r, 1, 65535), "angle": biased(r, 0, 359)}
+    if typ in ("GUC", "LSREP"):
+        if dest_pv is not None:
+            pkt["de"] = dest_pv
+        else:
+            pkt["de"] = {"addr": dest_addr if dest_addr is not None else rand_addr(r, rand_mac(r)),
+                         "tst_off_ms": -r.randint(0, 3000), "lat": biased(r, -900_000_000, 900_000_000),
+                         "lon": biased(r, -1_800_000_000, 1_800_000_000)}
+    if typ == "LSREQ":
+        pkt["req_addr"] = dest_addr if dest_addr is not None else rand_addr(r, rand_mac(r))
+    return pkt
